@@ -366,3 +366,27 @@ Theorem C04_cbc_enc_words_eq_block : forall rks iv blk, length iv = 16 -> bytes_
   cbc_enc_words rks (words4 iv) blk = (words4 c, c).
 Proof. exact cbc_enc_words_eq. Qed.
 Print Assumptions C04_cbc_enc_words_eq_block.
+
+(* ===================================================================== wave 5 ==
+   tweak_incr of sm4_xts.c (the data-unit number between XTS data units) = + 1 on the little-endian
+   value, wrapping; block_cipher.c's aes128 object: encrypt dispatches to AES-128, decrypt -- as
+   coded, (block_cipher_decrypt_func)aes_encrypt -- is NOT the inverse (the object is dead code:
+   no build defines ENABLE_AES; reported as an OBSERVATION by the check). *)
+Theorem C04_tweak_incr_spec : forall l, bytes_ok l = true ->
+  le_to_N (tweak_incr l) = ((le_to_N l + 1) mod 256 ^ N.of_nat (length l))%N /\
+  length (tweak_incr l) = length l /\ bytes_ok (tweak_incr l) = true.
+Proof. exact tweak_incr_spec. Qed.
+Print Assumptions C04_tweak_incr_spec.
+
+Theorem C04_block_cipher_aes128_encrypt : forall key blk, length key = 16 ->
+  bc_aes128_encrypt (bc_aes128_set_encrypt_key key) blk = AES.aes_encrypt_block key blk.
+Proof. exact bc_aes128_encrypt_eq. Qed.
+Print Assumptions C04_block_cipher_aes128_encrypt.
+
+Theorem C04_block_cipher_aes128_decrypt_refuted :
+  let k := map N.of_nat (seq 0 16) in
+  let ct := [0x69;0xc4;0xe0;0xd8;0x6a;0x7b;0x04;0x30;0xd8;0xcd;0xb7;0x80;0x70;0xb4;0xc5;0x5a]%N in
+  AES.aes_decrypt_block k ct = [0x00;0x11;0x22;0x33;0x44;0x55;0x66;0x77;0x88;0x99;0xaa;0xbb;0xcc;0xdd;0xee;0xff]%N /\
+  bc_aes128_decrypt (bc_aes128_set_decrypt_key k) ct <> AES.aes_decrypt_block k ct.
+Proof. exact bc_aes128_decrypt_refuted. Qed.
+Print Assumptions C04_block_cipher_aes128_decrypt_refuted.
